@@ -98,8 +98,11 @@ class _ErrorHandler:
                 ):
                     raise
                 elif issubclass(error, xml.dom.DOMException):
-                    error.line = line
-                    error.col = col
+                    # the position belongs to this report only
+                    e = error(msg)
+                    e.line = line
+                    e.col = col
+                    raise e
                 raise error(msg)
             else:
                 self._logcall(msg)
